@@ -7,6 +7,7 @@ import (
 	"io"
 	"os"
 	"strings"
+	"sync"
 )
 
 const (
@@ -19,6 +20,10 @@ var sniffFormats = []sniffFormat{
 }
 
 var state = make(map[string]sniffState, len(sniffFormats))
+
+// stateMtx serializes the line-by-line detection, which keeps its progress in
+// the package-level state shared by all sniffers.
+var stateMtx sync.Mutex
 
 type sniffFormat interface {
 	sniff(data []byte) Format
@@ -102,6 +107,8 @@ func (fs *Sniffer) SniffReader(f io.ReadSeeker) (Format, error) {
 
 	var format Format
 
+	stateMtx.Lock()
+	defer stateMtx.Unlock()
 	initSniffState()
 	for fileScanner.Scan() {
 		format = fs.sniff(fileScanner.Bytes())
